@@ -76,8 +76,20 @@ fn gen_instance(rng: &mut Rng) -> Scenario {
     if rng.chance(1, 4) {
         sc.adjust_charset = true;
     }
-    if rng.chance(1, 5) {
-        sc.max_mem = Some(sc.prealloc + rng.pick(&[0usize, 10, 50, 300]));
+    match rng.below(6) {
+        0 => sc.max_mem = Some(sc.prealloc + rng.pick(&[0usize, 10, 50, 300])),
+        1 | 2 => {
+            // no preallocation and a small limit: whether a write fails depends on how much of a
+            // split construct has to be buffered — and must depend on nothing else
+            sc.prealloc = 0;
+            sc.max_mem = Some(rng.pick(&[4usize, 8, 16, 24, 40, 64, 100, 200]));
+            sc.graceful_mem = rng.bool();
+        }
+        _ => {
+            if rng.chance(1, 3) {
+                sc.prealloc = rng.pick(&[0usize, 16, 4096]);
+            }
+        }
     }
     if rng.chance(1, 5) {
         sc.fail_at = Some(FailAt { index: rng.range(1, 6), before: rng.bool() });
